@@ -10,7 +10,7 @@ ID = 'C04'
 LEVEL = 'exploration'
 RUNS = {'quick': 24000, 'thorough': 400000}
 CHUNK = 100
-PROBES = ['timestamps_not_monotone', 'timestamp_ties', 'record_names_thread_with_open_window', 'stray_end', 'stray_end_inside_open_window', 'reopened_start', 'crossing_pairs', 'nested_same_thread',
+PROBES = ['long_window', 'same_name_code_pair', 'parser_built_with_thread_map', 'earlier_parser_object', 'timestamps_not_monotone', 'timestamp_ties', 'record_names_thread_with_open_window', 'stray_end', 'stray_end_inside_open_window', 'reopened_start', 'crossing_pairs', 'nested_same_thread',
           'other_thread_between', 'trace_domain_window', 'trace_record_inside_ordinary_window', 'undecoded_pair',
           'unknown_code', 'all_qualifier', 'fragment_none', 'fault_in_open_window', 'decoder_raised']
 RULE = ('one run = 1..6 thread programs (all decoder families, trace-domain records, known-but-undecoded and unknown '
@@ -52,7 +52,11 @@ def _pattern_ops(rng, ctx):
     def rec(eid, q):
         return {'k': 'raw', 'id': eid, 'q': q, 'a': [rng.randrange(0, 4) for _ in range(4)]}
     a, b = code(), code()
-    kind = rng.pick(['stray', 'reopen', 'cross', 'nest', 'startonly', 'all', 'strayinside'])
+    kind = rng.pick(['stray', 'reopen', 'cross', 'nest', 'startonly', 'all', 'strayinside', 'samename', 'crossdec'])
+    if kind == 'samename':
+        return [worlds.op_same_name_pair(rng)]
+    if kind == 'crossdec':
+        return [worlds.op_crossing(rng, ctx)]
     if kind == 'stray':
         return [rec(a, 2)]
     if kind == 'reopen':
@@ -69,6 +73,14 @@ def _pattern_ops(rng, ctx):
 
 
 def generate(rng, index, tier):
+    if index % 997 == 1:
+        # a long-running operation: thousands of same-thread records inside one window, then the thread goes on
+        n = worlds.LONG_SIZES[(index // 997) % len(worlds.LONG_SIZES)]
+        ctx = worlds.Ctx(0, 100, [100, 117])
+        name = rng.pick(['BSC_read', 'MACH_vmfault', 'DBG_DYLD_TIMING_LAUNCH_EXECUTABLE', 'BSC_open'])
+        ops = [worlds.op_long_window(rng, name, n)] + worlds.gen_ops(rng, ctx, 2, {'bsd': 1, 'mach': 1})
+        other = worlds.gen_ops(rng, worlds.Ctx(1, 117, [100, 117]), 3, {'bsd': 1, 'mach': 1, 'path': 1})
+        return {'threads': [{'tid': 100, 'ops': ops}, {'tid': 117, 'ops': other}], 'schedule': [0] * 50 + [1, 0] * 20, 'faults': [], 'long': n}
     nthreads = rng.pick([1, 2, 2, 3, 3, 4, 6])
     mix = {'bsd': 4, 'path': 3, 'mach': 3, 'turnstile': 1, 'dyld': 1, 'perf': 1, 'tracedom': 3, 'lookup': 1, 'gstr': 2,
            'undecoded': 2, 'unknown': 1, 'single': 2}
@@ -111,6 +123,8 @@ def generate(rng, index, tier):
         else:
             faults.append({'k': 'kill', 'th': rng.randrange(nthreads), 'after': rng.randrange(0, 10)})
     scn['faults'] = faults
+    scn['tmap'] = rng.chance(0.5)          # the parser is built with a populated thread map (as PyKdebugParser does on reuse)
+    scn['earlier'] = rng.chance(0.2)       # another parser object in the same process saw unfinished operations of these threads
     if rng.chance(0.15):
         # id-remapped table: a decodable name lives under another id
         cat = worlds.catalog()
@@ -130,7 +144,25 @@ def execute(scn):
         bump('fault:' + k, v)
     events = worlds.kevents_of(stream)
     index_of = {id(e): i for i, e in enumerate(events)}
-    parser = tool.tp_mod.TracesParser(table, {}, {})
+    if scn.get('long'):
+        bump('probe:long_window')
+    if scn.get('earlier'):
+        # a DIFFERENT parser object is fed the STARTs and data records of the first half of the stream and then dropped:
+        # nothing it saw may influence the judged parser (no module-level / class-level / default-argument state)
+        bump('probe:earlier_parser_object')
+        bump('fault:residue')
+        ep = tool.tp_mod.TracesParser(table, {r['t']: 4242 for r in stream}, {})
+        for r, ev in list(zip(stream, events))[:max(1, len(events) // 2)]:
+            if r['q'] == 1 or table.get(r['id'], '').startswith('TRACE_DATA'):
+                try:
+                    ep.feed(tool.kevent(kernel.to_bytes(r)))
+                except Exception:
+                    pass
+    tmap = {}
+    if scn.get('tmap'):
+        bump('probe:parser_built_with_thread_map')
+        tmap = {th['tid']: 5000 + i for i, th in enumerate(scn['threads'])}
+    parser = tool.tp_mod.TracesParser(table, tmap, {p: 'proc%d' % p for p in tmap.values()})
     calls = []
     depth = [0]
 
@@ -285,6 +317,10 @@ def execute(scn):
         if len(t.ktraces) != len(snap) or any(a is not b for a, b in zip(t.ktraces, snap)):
             bad('reported-trace-changed-later', 'ktraces', 'the trace reported at record %d had %d events then and has %d at the end of the stream' % (at, len(snap), len(t.ktraces)))
             break
+    cat = worlds.catalog()
+    pairs = {k for ks in cat['same_name_codes'] for k in ks}
+    if any(r['id'] in pairs for r in stream):
+        bump('probe:same_name_code_pair')
     crossing = _count_crossing(stream)
     if crossing:
         bump('probe:crossing_pairs', crossing)
